@@ -1,11 +1,11 @@
 #!/bin/bash
 # Runs, for every seeded change, the quick check of the property it was written against (plus extra checks given in
-# seeded/_extra_checks) with the change applied to /repo, and undoes it.  Output: seeded/_unconfirmed/detect.log
-OUT=/verif/seeded/_unconfirmed/detect.log
+# seeded/_extra_checks) with the change applied to /repo, and undoes it.  Output: seeded/_source/detect.log
+OUT=/verif/seeded/_source/detect.log
 : > $OUT
 cd /repo || exit 2
 git diff --quiet || { echo "repo dirty" >> $OUT; exit 2; }
-for d in /verif/seeded/_unconfirmed/C*/; do for v in a b; do
+for d in /verif/seeded/_source/C*/; do for v in a b; do
   dir=$d$v; pid=$(basename $d); id=$pid/$v
   patch=$dir/patch.rebased.diff; [ -f $patch ] || patch=$dir/patch.diff
   if ! git -C /repo apply --check $patch 2>/dev/null; then echo "$id APPLY-FAIL" >> $OUT; continue; fi
